@@ -86,6 +86,13 @@ func vpNewLegacy(w http.ResponseWriter) (*vpTransport, error) {
 	if vpHijackFails {
 		return nil, errors.New("cannot hijack connection")
 	}
+	// a request may bring its own connection (independent of the order in which concurrent requests are served)
+	if hw, ok := w.(*vpHTTPW); ok && hw.tr != nil {
+		vpMu.Lock()
+		vpMadeTransports = append(vpMadeTransports, hw.tr)
+		vpMu.Unlock()
+		return hw.tr, nil
+	}
 	return vpTakeTransport(), nil
 }
 
@@ -230,7 +237,10 @@ func vpResetHandlers() {
 	vpUUIDCtr = 0
 }
 
-type vpHTTPW struct{ hdr http.Header }
+type vpHTTPW struct {
+	hdr http.Header
+	tr  *vpTransport // the connection behind this response writer (nil: next queued transport)
+}
 
 func (w *vpHTTPW) Header() http.Header         { return w.hdr }
 func (w *vpHTTPW) WriteHeader(int)             {}
